@@ -1015,7 +1015,7 @@ func checkC20(P *Prog, r *Result) {
 	r.Explanation = "Decides, for every built-in test, that its predicate closure computes exactly the documented predicate: the closure's return value is rendered as a canonical formula " +
 		"(disjunction over its return-true paths of the path condition, with loops summarised as an existential over their iteration domain and rune-range loops decided exactly by " +
 		"evaluating their comparison DAG on one representative per region between its constants) and compared with a table frozen from the documentation, keyed by the issue code the same " +
-		"constructor reports. The Not() variants need no row: C17/C01 prove the negated wrapper is the exact complement. The grammar of the e-mail/UUID regular expressions and of url.Parse is not decided."
+		"constructor reports. The Not() variants need no row: C17/C01 prove the negated wrapper is the exact complement. (regexp-language) the constant pattern behind Email() and UUID() accepts exactly the strings of the documented grammar: both are compiled to regexp/syntax programs and compared as automata, a difference is reported with a witness string. The grammar of url.Parse (library code) is not decided."
 	r.Assumptions = []string{"a destination whose type does not match the schema is a configuration error (type-assertion failure paths returning false are not part of the predicate)"}
 	lits := P.testLiterals()
 	boolT := P.lookupObj(pkgInternals, "BoolTFunc")
